@@ -84,3 +84,10 @@ Theorem C03_full_height_is_window_maximum_of_cross_correlation : forall one lg f
                r_cy r = y + py - c /\ r_cx r = x + px - c).
 Proof. exact full_height_is_window_maximum_of_xcorr. Qed.
 Print Assumptions C03_full_height_is_window_maximum_of_cross_correlation.
+
+(* ---- non-vacuity: a concrete centro-symmetric mask of even and of odd size passes the checker (hypothesis csym is satisfiable) ---- *)
+Import ListNotations.
+Example nv_csym_masks :
+  csymb 4 4 (Corr.of_list2 [[0; 0; 0; 0]; [0; 1; 2; 1]; [0; 2; 5; 2]; [0; 1; 2; 1]]) = true /\
+  csymb 3 5 (Corr.of_list2 [[1; 2; 3; 2; 1]; [4; 5; 9; 5; 4]; [1; 2; 3; 2; 1]]) = true.
+Proof. split; vm_compute; reflexivity. Qed.
